@@ -373,6 +373,7 @@ def core_mem_decls():
     add([["Mi4.1:1:0", "Mf12:1:0", "Mf10:2:0", "Mi6.1:1:1"]], [0])
     add([["Mi6.1:1:1", "Mi6.1:1:0"]], [0])
     add([["Mi6.1:1:0", "Mi6.1:1:1"]], [0])
+    add([["Mf12:1:1", "Mf12:1:0"]], [0])
     add([["Mf12:2:1", "Mf12:2:2", "Mf12:2:0", "Mf10:1:0", "Mi0.0:1:0", "Mi4.1:1:0", "Mi4.0:1:0", "Mc12:1:0"]], [0])
     add([["f12", "Mf12:1:0", "o"]], [0])
     add([["Mf10:1:0", "Mf12:1:0"]], [0, 0])
@@ -448,8 +449,10 @@ def mkbuf(a, helper):
         arr = (np.arange(24) + 1).astype(dt).reshape(2, 3, 4)
     if src == 0: return arr
     if src == 2: return memoryview(arr)
-    if nd == 2: return helper.mk_f8_2(arr)
-    return helper.mk_f8(arr) if k == "f" else helper.mk_i4(arr)
+    # the Cython memoryview object that wraps the numpy array itself (its .base is the array);
+    # the slice object returned by the helper has that memoryview as its base
+    if nd == 2: return helper.mk_f8_2(arr).base
+    return (helper.mk_f8(arr) if k == "f" else helper.mk_i4(arr)).base
 def mkarg(a, mod, helper):
     if a == "I": return 3
     if a == "T": return True
@@ -487,7 +490,7 @@ for c in spec["cases"]:
     f = getattr(mod, c["fn"])
     try:
         if c["op"] == "call":
-            args = [mkarg(a, mod, helper) for a in c["args"]]
+            args = [mkarg(a, mod, mod if hasattr(mod, "mk_f8") else helper) for a in c["args"]]
             r = f(*args)
             gen = None
             try:
@@ -590,7 +593,7 @@ def run(ctx):
             groups["c34_mem%d" % (j // 8)] = ds[j:j + 8]
     modnames = sorted(groups)
     helper = [m for m in modnames if "mem" in m][0]
-    specs = [dict(name=m, source=gen_module(groups[m], m == helper), workdir=ctx.workdir, cflags=["-O0"])
+    specs = [dict(name=m, source=gen_module(groups[m], "mem" in m), workdir=ctx.workdir, cflags=["-O0"])
              for m in modnames]
     built = cybuild.build_many(specs, jobs=8)
     for (so, err), sp in zip(built, specs):
